@@ -296,7 +296,26 @@ fn e2_case(p: &Point, id: &str) -> String {
             probes.replace('\n', "\n    ")
         )),
         "fn_concrete" => s.push_str(&format!("pub struct Conf;\n{fb}#[{mac}({attr})]\n{}\n{probes}", p.item(order))),
-        _ => s.push_str(&format!("{fb}#[{mac}({attr})]\n{}\n{probes}", p.item(order))),
+        _ => {
+            // every other time the options that are written bare come from the caller of a `macro_rules!` macro that holds the
+            // item (`$o:ident` fragments): what the macro generates for the mock libraries must not depend on where an option's
+            // tokens came from
+            let opts = p.options(order);
+            let bare: Vec<String> = opts.iter().filter(|o| !o.contains('=')).cloned().collect();
+            if order % 2 == 1 && !bare.is_empty() && (p.target == "fn" || p.target == "trait") {
+                let mut fixed: Vec<String> = if p.target == "fn" { vec![format!("{}TheTrait", Point::vis(order))] } else { vec![] };
+                fixed.extend(opts.iter().filter(|o| o.contains('=')).cloned());
+                let sep = if fixed.is_empty() { "" } else { ", " };
+                s.push_str(&format!(
+                    "{fb}macro_rules! __mk_item {{ ($($o:ident),*) => {{\n#[{mac}({}{sep}$($o),*)]\n{}\n}} }}\n__mk_item!({});\n{probes}",
+                    fixed.join(", "),
+                    p.item(order),
+                    bare.join(", ")
+                ));
+            } else {
+                s.push_str(&format!("{fb}#[{mac}({attr})]\n{}\n{probes}", p.item(order)));
+            }
+        }
     }
     s.push_str("struct Probe<T>(PhantomData<T>);\ntrait Fallback { fn has(&self) -> bool { false } }\nimpl<T> Fallback for Probe<T> {}\nimpl<T: TheTrait> Probe<T> { fn has(&self) -> bool { true } }\n");
     // the unimock derivation is observed through the named API when there is one, else (traits) through `Unimock: TheTrait`
